@@ -474,6 +474,10 @@ class ExtendedKalmanFilter:
         for key, model in self.sensor_models.items():
             assert isinstance(sensor_noises[key], dict)
             assert len(sensor_noises[key]) == self.sensor_models[key].sensor_size
+            if {str(k) for k in sensor_noises[key]} != {str(r) for r in model.readings}:
+                raise ModelConstructionError(
+                    f"Sensor noise for {key} needs exactly one entry per reading"
+                )
 
             matrix_sensor_noises[key] = model.ReadingCovariance.from_dict(
                 sensor_noises[key]
